@@ -70,6 +70,10 @@ HARNESS_SRC = [
     "acquire-core-libs/src/acquire-core-logger/logger.c",
     "acquire-core-libs/src/acquire-core-platform/linux/platform.c",
     "acquire-core-libs/src/acquire-device-properties/device/props/device.c",
+    "acquire-core-libs/src/acquire-device-hal/device/hal/camera.c",
+    "acquire-core-libs/src/acquire-device-hal/device/hal/storage.c",
+    "acquire-core-libs/src/acquire-device-properties/device/props/storage.c",
+    "acquire-core-libs/src/acquire-device-properties/device/props/components.c",
 ]
 MANAGER_CPP = "acquire-core-libs/src/acquire-device-hal/device/hal/device.manager.cpp"
 
@@ -550,6 +554,16 @@ def gen_ops(rng, paths, slots, tier, light=False, slow=False):
     for i in list(range(n)) + [n, 2 ** 32 - 1]:
         ops.append(("open %d" % i, None))
         ops.append(("openh %d" % i, None))
+    # through camera_open / storage_open, for the devices of real driver libraries (the common driver, also when it is loaded a second
+    # time under an optional driver's name, i.e. with a driver id other than 0)
+    base = 0
+    for st, sd in slots:
+        cnt = len(paths["table"]) if st == "common" else len(sd) if st == "mock" else 0
+        if st == "common":
+            for i in range(base, base + cnt):
+                if devs[i][0] in (1, 2):
+                    ops.append(("hopen %d" % i, None))
+        base += cnt
     kinds_bad = [7, 8, 255, 256, 65536, 2 ** 31 - 1, 2 ** 31, 2 ** 32 - 1, rng.randrange(7, 2 ** 32)]
     for k in list(range(0, 7)) + kinds_bad:
         ops.append(("first %d" % k, None))
@@ -632,6 +646,8 @@ def run_config(paths, slots, ops, tag, watchdog_ms=2000, timeout=900):
         if op.startswith("selh "):
             op = "sel " + op[5:]
         if op.startswith("openh "):     # the same open, after every other enumerated device was opened and closed in the same process
+            op = "open " + op[6:]
+        if op.startswith("hopen "):     # the same open, through camera_open / storage_open
             op = "open " + op[6:]
         if op.startswith("sel "):
             head, _, tail = r.partition(" | ")
@@ -729,6 +745,11 @@ def plan_configs(ctx):
     masks = list(range(32)) if thorough else sorted(set([0, 31] + [rng.randrange(0, 32) for _ in range(4)]))
     for mask in masks:
         cfgs.append(("m%02d" % mask, make_config(rng, mask, True), None))
+    # the real common driver loaded a second (and third) time under optional drivers' names: real devices with a driver id other than 0
+    twice = make_config(rng, 0b00101, True)
+    twice[2] = ("common", [])
+    twice[5] = ("common", [])
+    cfgs.append(("common-x3", twice, None))
     # without the common driver: every subset in thorough, a few in quick; ops are the light set + some patterns
     masks0 = list(range(32)) if thorough else sorted(set([0, 31, rng.randrange(0, 32)]))
     for mask in masks0:
